@@ -522,7 +522,13 @@ def g7_task(payload):
                     unwrap = _make_unwrap(decl, b, fn) if has_coder else None
                     res = g2.verify_to_dict(cls, fn, dict(r.globals), pp, lv, frozenset(), view_factory=g4.make_enc_view(cls, genf), inline=table,
                                             unwrap=unwrap, hooks={"call": units.unit_call_hook(uidx)})
-                    obs.append(g4._ob(oid, res, r, "REF_ENC", cls))
+                    ob = g4._ob(oid, res, r, "REF_ENC", cls)
+                    if ob["status"] != "proved" and not ob.get("witness"):
+                        try:
+                            ob["witness"] = concrete_witness(mod, p, cls, name, dialect, genf, decl, has_coder, b, src)
+                        except Exception as e:  # noqa
+                            ob["witness_error"] = f"{type(e).__name__}: {e}"[:200]
+                    obs.append(ob)
             except (pysym.NotInSubset, ref.Unsupported) as e:
                 obs.append(dict(id=oid, status="undecided", detail=f"outside the verified subset: {e}", unit=r.text[:600]))
         return {"obligations": obs}
@@ -536,6 +542,68 @@ def _default_branch_text(fn):
         if isinstance(s, ast.If) and ast.unparse(s.test) == "dialect is None":
             return "\n".join(ast.unparse(x) for x in s.body)
     return "\n".join(ast.unparse(x) for x in fn.body)
+
+
+def concrete_witness(mod, p, cls, name, dialect, genf, decl, has_coder, b, src):
+    """replay of a refuted `to` unit: the public call on sample instances against the reference evaluated
+    concretely (REF_ENC of the effective dialect per field, None kept/omitted per the effective options,
+    then the declared encoder)"""
+    import dataclasses as _dc
+
+    from . import samples
+
+    hints = ref.resolved_hints(cls)
+    insts = []
+    try:
+        insts.append(sample_instance(mod, p))
+    except Exception:
+        pass
+    insts += samples.dataclass_instances(cls)
+    fmt_dialect = decl.get("dialect")
+    from mashumaro.core.const import Sentinel
+
+    def opt(name_):
+        for lv in (dialect, getattr(getattr(cls, "Config", None), "dialect", None), getattr(cls, "Config", None), fmt_dialect):
+            v = getattr(lv, name_, Sentinel.MISSING) if lv is not None else Sentinel.MISSING
+            if v is not Sentinel.MISSING and v is not None:
+                return v
+        return False
+
+    omit_none = bool(opt("omit_none"))
+    refs = {}
+    for f in _dc.fields(cls):
+        gen = genf()
+        gen.owner = gen.owner or cls
+        try:
+            e = gen.enc(hints[f.name], "x")
+            g4._ref_env(gen)
+            refs[f.name] = eval("lambda x: " + e, gen.ns)
+        except Exception:
+            return None
+    enc = decl.get("coder") if has_coder else None
+    kw = {}
+    for enc_param, (flag, value) in ((b._get_encoder_kwargs() or {}).items() if has_coder else ()):
+        kw[enc_param] = value
+    for inst in insts:
+        try:
+            exp = {}
+            for f in _dc.fields(cls):
+                v = getattr(inst, f.name)
+                if v is None and omit_none:
+                    continue
+                exp[f.name] = None if v is None else refs[f.name](v)
+            exp_out = enc(exp, **kw) if enc is not None else exp
+        except Exception:
+            continue
+        try:
+            call_kw = {"dialect": dialect} if dialect is not None else {}
+            got = getattr(inst, name)(**call_kw)
+            why = None if samples.same(got, exp_out) else f"{name}({'dialect=' + dialect.__name__ if dialect else ''}) = {got!r}, the reference gives {exp_out!r}"
+        except Exception as e:  # noqa
+            why = f"{name}() raised {type(e).__name__}: {str(e)[:160]}, the reference gives {exp_out!r}"
+        if why:
+            return {"confirmed": True, "source": src, "input": repr(inst), "why": why[:700]}
+    return None
 
 
 def _make_unwrap(decl, b, fn):
